@@ -263,6 +263,31 @@ def extreme_value_files(repo):
     return out
 
 
+class _EscapesOnly(object):
+    """view of the run context for the stream-info ties when they run under C04: of what they see on their structured,
+    field-by-field generated headers of every format (valid, outside the valid ranges, damaged) only an exception that
+    is not a MutagenError, or a parser that does not finish, counts here; what the model says about values is C05's"""
+    def __init__(self, ctx):
+        object.__setattr__(self, "_c", ctx)
+
+    def __getattr__(self, n):
+        return getattr(self._c, n)
+
+    def __setattr__(self, n, v):
+        setattr(self._c, n, v)
+
+    def disagree(self, *a, **k):
+        self._c.hist["info-ties:value-disagreement(C05's)"] += 1
+
+    def case(self, **k):
+        k["modelled"] = False
+        self._c.case(**k)
+
+    def violation(self, key, what, case=None):
+        if "escape" in key or "hang" in key:
+            self._c.violation("info:" + key, what, case)
+
+
 def run(ctx, tasks=None):
     ctx.rule = RULE
     repo = ctx.repo
@@ -295,6 +320,11 @@ def run(ctx, tasks=None):
             filetypes_tie.run(ctx)
             import mp4file_tie
             mp4file_tie.run(ctx, report=True)
+            # the generated headers of the stream-info ties (every field of every format at its edges): escapes only
+            import info_tie_a, info_tie_b
+            view = _EscapesOnly(ctx)
+            info_tie_a.run(view)
+            info_tie_b.run(view)
         except ImportError as e:
             ctx.notes.append("mp4file_tie unavailable: %s" % e)
     # the corpus of minimised hard inputs runs first (harness/corpus/c04: inputs that once escaped or hung)
